@@ -98,6 +98,28 @@ fn main() {
                 Err(_) => println!("{}", json!({"panic": true})),
             }
         }
+        "convert_api" => {
+            // convert_api N <v> <from> <to> | R <s> <e> <from> <to> | B N <v> <from> <metric|imperial>   (public Converter::convert)
+            use cooklang::convert::{ConvertTo, ConvertUnit, ConvertValue};
+            let c = Converter::bundled();
+            let (val, k) = match args[2].as_str() {
+                "N" => (ConvertValue::Number(f(&args[3])), 4),
+                _ => (ConvertValue::Range(f(&args[3])..=f(&args[4])), 5),
+            };
+            let to = match args[k + 1].as_str() {
+                "metric" => ConvertTo::Best(System::Metric),
+                "imperial" => ConvertTo::Best(System::Imperial),
+                "same" => ConvertTo::SameSystem,
+                key => ConvertTo::Unit(ConvertUnit::Key(key)),
+            };
+            let r = std::panic::catch_unwind(|| c.convert(val, ConvertUnit::Key(&args[k]), to));
+            match r {
+                Ok(Ok((ConvertValue::Number(n), u))) => println!("{}", json!({"kind":"Number","n":n,"unit":u.symbol()})),
+                Ok(Ok((ConvertValue::Range(r), u))) => println!("{}", json!({"kind":"Range","s":r.start(),"e":r.end(),"unit":u.symbol()})),
+                Ok(Err(e)) => println!("{}", json!({"err": e.to_string()})),
+                Err(_) => println!("{}", json!({"panic": true})),
+            }
+        }
         "convert_raw" => {
             // convert_raw <value> <ratio_a> <diff_a> <ratio_b> <diff_b>
             let c = Converter::bundled();
